@@ -56,6 +56,16 @@ class SetE:
         return SetE(self.items)
 
 
+class NumSetE(SetE):
+    """a set whose elements are numbers, some of them symbolic; invariant: the elements are pairwise different under
+    the path condition (established by the forking `add`).  Only add / len / truth / sorted are modelled."""
+
+    kind = "numset"
+
+    def copy(self):
+        return NumSetE(self.items)
+
+
 class DictE:
     kind = "dict"
 
